@@ -21,21 +21,6 @@ NG = 3
 GIDS = [frozenset({k + 1}) for k in range(NG)]
 
 
-def _mk_actor_cls():
-    from frequenz.sdk.microgrid._power_managing._power_managing_actor import PowerManagingActor
-    from frequenz.sdk.timeseries._base_types import SystemBounds
-    from frequenz.sdk._internal._asyncio import run_forever
-
-    class PM(PowerManagingActor):
-        def _add_system_bounds_tracker(self, component_ids):  # harness stub: no battery pool
-            self._system_bounds[component_ids] = SystemBounds(
-                timestamp=datetime.now(tz=timezone.utc), inclusion_bounds=None, exclusion_bounds=None)
-            rx = self._verif_bounds[component_ids].new_receiver(limit=1000)
-            self._bound_tracker_tasks[component_ids] = asyncio.create_task(
-                run_forever(lambda: self._bounds_tracker(component_ids, rx)))
-    return PM
-
-
 async def _drive(case):
     from frequenz.channels import Broadcast
     from frequenz.client.microgrid import ComponentCategory
@@ -52,9 +37,27 @@ async def _drive(case):
     proposals, subs, reqs, results = (Broadcast(name=n) for n in "psrx")
     registry = ChannelRegistry(name="verif")
     req_rx = reqs.new_receiver(limit=1000)
-    actor = _mk_actor_cls()(proposals.new_receiver(limit=1000), subs.new_receiver(limit=1000), reqs.new_sender(),
-                            results.new_receiver(limit=1000), registry, component_category=ComponentCategory.BATTERY)
-    actor._verif_bounds = {ids: Broadcast(name=f"b{min(ids)}") for ids in GIDS}
+    # The REAL actor class, incl. its _add_system_bounds_tracker: the module-level `_data_pipeline` it asks for a pool
+    # of its own category is replaced, for the duration of the run, by a factory that records the call and hands out
+    # an object whose `_system_power_bounds` is the group's bounds channel.
+    from frequenz.client.microgrid import InverterType
+    from frequenz.sdk.microgrid._power_managing import _power_managing_actor as PMA
+    from frequenz.sdk.microgrid._power_managing._power_managing_actor import PowerManagingActor
+    from types import SimpleNamespace as NS
+    bounds_ch = {ids: Broadcast(name=f"b{min(ids)}") for ids in GIDS}
+    pool_calls = []
+
+    def factory(kind):
+        def new_pool(*, priority, component_ids, **_kw):
+            pool_calls.append([kind, sorted(component_ids), priority])
+            return NS(_system_power_bounds=bounds_ch[frozenset(component_ids)])
+        return new_pool
+    kind = case.get("kind", "battery")
+    cat = {"battery": (ComponentCategory.BATTERY, None), "ev": (ComponentCategory.EV_CHARGER, None),
+           "pv": (ComponentCategory.INVERTER, InverterType.SOLAR)}[kind]
+    PMA._data_pipeline = NS(new_battery_pool=factory("battery"), new_ev_charger_pool=factory("ev"), new_pv_pool=factory("pv"))
+    actor = PowerManagingActor(proposals.new_receiver(limit=1000), subs.new_receiver(limit=1000), reqs.new_sender(),
+                               results.new_receiver(limit=1000), registry, component_category=cat[0], component_type=cat[1])
     log = []
     ticks = []
     orig_drop = actor._set_power_group.drop_old_proposals
@@ -72,7 +75,7 @@ async def _drive(case):
             await subs.new_sender().send(rr)
     await asyncio.sleep(QUIESCE)
     psend, rsend = proposals.new_sender(), results.new_sender()
-    bsend = {ids: actor._verif_bounds[ids].new_sender() for ids in GIDS}
+    bsend = {ids: bounds_ch[ids].new_sender() for ids in GIDS}
     o = lambda x: None if x is None else W(x)
     reqs_of = {g: [] for g in range(NG)}
 
@@ -142,14 +145,22 @@ async def _drive(case):
     for t in pumps:
         t.cancel()
     await actor.stop()
+    log.append({"e": "pools", "calls": pool_calls})
     return log
 
 
+_REAL_PIPELINE = []
+
+
 def run_actor(case):
+    from frequenz.sdk.microgrid._power_managing import _power_managing_actor as PMA
+    if not _REAL_PIPELINE:
+        _REAL_PIPELINE.append(PMA._data_pipeline)
     loop = async_solipsism.EventLoop()
     try:
         return loop.run_until_complete(_drive(case))
     finally:
+        PMA._data_pipeline = _REAL_PIPELINE[0]
         import gc
         gc.collect()
         loop.close()
@@ -179,7 +190,7 @@ def model_events(case, log):
         if x["e"] == "tick" and any(abs((x["now"] - t) - 60 * UNIT) <= 2 for t in now_of.values()):
             return None, None     # float subtraction at the exact expiry boundary is not modelled
     for k, x in enumerate(log):
-        if x["e"] == "now":
+        if x["e"] in ("now", "pools"):
             continue
         if x["e"] == "tick":
             if k + 1 < len(log) and log[k + 1]["e"] == "tick":
@@ -231,7 +242,7 @@ def gen_case(rng, maxlen=16):
         else:
             evs.append({"t": "sleep", "dt": rng.choice([1, 8, 80, 240, 400, 479, 481, 500])})
     q = rng.choice([-2, 0, 1, 2, 3, 7])
-    return M.gen_scale(rng, {"events": evs, "q_reg": q, "q_op": q if rng.random() < 0.4 else rng.choice([-2, 0, 1, 2, 3, 7])})
+    return M.gen_scale(rng, {"events": evs, "kind": rng.choice(["battery", "battery", "ev", "pv"]), "q_reg": q, "q_op": q if rng.random() < 0.4 else rng.choice([-2, 0, 1, 2, 3, 7])})
 
 
 def boundary_cases():
@@ -291,6 +302,7 @@ class GroupsStream(Stream):
             return None
         return json.dumps(case, sort_keys=True)
 
+
     def labels(self, case, obs):
         out = [f"events={min(len(case['events']), 25)}"]
         if case.get("scale", 1) != 1:
@@ -308,6 +320,7 @@ class GroupsStream(Stream):
             out.append("partial_failures_in_several_groups")
         if any(x["e"] == "tick" for x in obs):
             out.append("timer_ticks")
+        out.append("manager_category=" + case.get("kind", "battery"))
         out.append(f"requests={min(sum(1 for x in obs if x.get('request') is not None), 10)}")
         return out
 
@@ -319,6 +332,13 @@ class GroupsStream(Stream):
         cur = {g: None for g in range(NG)}
         last = {g: None for g in range(NG)}
         for x in obs:
+            if x["e"] == "pools":
+                # the bounds of a group come from a pool of the actor's own category over exactly that group's ids
+                want = sorted([case.get("kind", "battery"), sorted(ids)] for ids in GIDS)
+                got = sorted(c[:2] for c in x["calls"])
+                if got != want:
+                    out.append({"what": f"wiring: the manager asked the data pipeline for bounds pools {got}, its groups need {want}", "finding": None})
+                continue
             if x["e"] in ("tick", "now"):
                 continue
             e = case["events"][x["e"]]
